@@ -325,3 +325,16 @@ Proof.
   - exact H1.
   - unfold dir_url. destruct (f_rel f) as [|c r] eqn:Er; [exact Hu|]. apply H2. discriminate.
 Qed.
+
+(* the same with the weakest premise: url_ref decides the directory URL
+   (it never answers RErr there: PathUrlBase.base_dir_url_ref_cases) *)
+Theorem expected_urls_accepted_min (base bd : bytes) (tree : list fentry) (xs : list exch) :
+  expected_exchanges base tree = Some xs -> base_dir base = Some bd ->
+  url_ref bd <> RUnknown ->
+  (forall f, In f tree -> forall t, f_rel f <> 47 :: t) ->
+  Forall (fun x => url_ref (ex_url x) = ROk true false false) xs.
+Proof.
+  intros Hx Hb Hu Hrel.
+  destruct (base_dir_url_ref_cases base bd Hb) as [Hok|Hun]; [|contradiction].
+  exact (expected_urls_accepted base bd tree xs Hx Hb Hok Hrel).
+Qed.
